@@ -19,6 +19,16 @@ pub(super) fn index_for_rcurrent(
         .unwrap_or(0);
 
     if rotate_rcurrent {
+        #[cfg(feature = "verif_hooks")]
+        crate::verif_hooks::point(
+            "rename_current",
+            Some(&config.file_spec.as_pathbuf(Some(CURRENT_INFIX))),
+            Some(
+                &config
+                    .file_spec
+                    .as_pathbuf(Some(&number_infix(index_for_rcurrent))),
+            ),
+        )?;
         match std::fs::rename(
             config.file_spec.as_pathbuf(Some(CURRENT_INFIX)),
             config
